@@ -93,6 +93,7 @@ FS = {
     "once.mac": ".once\nonce1: .word 1\n",
     "data.bin": bytes(range(10)),
     "loop.mac": "nop\n.include \"loop.mac\"\n",
+    "long.mac": "".join(f"; line {q}\n" for q in range(1, 40)) + "lx1:: nop\nlk1 == 5\n\tnop\nlz1:: nop\n",
 }
 NEEDS_FS = re.compile(r"include|insert_file", re.I)
 
@@ -150,6 +151,10 @@ FAULTS = {
     "caret-r-case-folding-character": [".word ^R\u0130", ".word ^Ra\u212a"],
     "rad50-case-folding-character": [".rad50 /a\u0131/", ".rad50 /\ufb06/"],
     "mnemonic-case-folding-character": ["\u017fob r0, ."],
+    # diagnostics with two spans in two files, the other span far down in a file longer than the text itself
+    "cross-file-duplicate-export": ['.include "long.mac"', "lx1:: nop"],
+    "cross-file-duplicate-constant": ["lk1 == 7", '.include "long.mac"'],
+    "cross-file-sob-forward": ["sob r0, lz1", '.include "long.mac"'],
 }
 
 NO_SPACE_BEFORE = {",", ":", "::", ")", ")+", "nl"}
